@@ -251,6 +251,7 @@ pub struct Stats {
     pub lingering: u64,
     pub events_validated: u64,
     pub states_validated: u64,
+    pub retention_checks: u64,
 }
 
 pub struct RunOut {
@@ -277,11 +278,14 @@ pub struct Checks {
     pub dumps: bool,
     /// path of the Lean model driver for trace validation (None = oracle checks only)
     pub drv_path: Option<String>,
+    /// after a forced deletion pass at a reader-free quiescent point, compare the directory with
+    /// the retention model (C11)
+    pub retention_model: bool,
 }
 
 impl Default for Checks {
     fn default() -> Self {
-        Checks { shape: true, files: true, dumps: true, drv_path: None }
+        Checks { shape: true, files: true, dumps: true, drv_path: None, retention_model: false }
     }
 }
 
@@ -937,6 +941,63 @@ pub fn run_history(h: &History, checks: &Checks, fs: &SimFs) -> RunOut {
                         for (name, r) in &after {
                             if let Err(e) = r {
                                 obs.push(Obs { sig: "c07:contents-changed".into(), what: format!("after background work quiesced, {name}: {e}"), at: i });
+                            }
+                        }
+                    }
+                    if checks.retention_model && snaps.is_empty() && iters.is_empty() && drv.is_some() {
+                        // force a deletion pass (an empty memtable flush), then the directory must be
+                        // a fixed point of the model's deletion pass and contain every live file
+                        d.compact_range(Some(&b""[..])..Some(&b""[..]));
+                        if let Some(st3) = settle(d, &mut stats, &mut obs, i, &mut drv, &mut chain) {
+                            let mut tabs: Vec<u64> = vec![];
+                            let mut wals: Vec<u64> = vec![];
+                            let mut mans: Vec<u64> = vec![];
+                            let mut temps: Vec<u64> = vec![];
+                            for (p, _) in fs.all_files() {
+                                let name = p.file_name().map(|n| n.to_string_lossy().to_string()).unwrap_or_default();
+                                if let Some(n) = name.strip_suffix(".rdb").and_then(|x| x.parse().ok()) {
+                                    tabs.push(n);
+                                } else if let Some(n) = name.strip_prefix("wal-").and_then(|x| x.strip_suffix(".log")).and_then(|x| x.parse().ok()) {
+                                    wals.push(n);
+                                } else if let Some(n) = name.strip_prefix("MANIFEST-").and_then(|x| x.strip_suffix(".manifest")).and_then(|x| x.parse().ok()) {
+                                    mans.push(n);
+                                } else if let Some(n) = name.strip_suffix(".dbtemp").and_then(|x| x.parse().ok()) {
+                                    temps.push(n);
+                                }
+                            }
+                            let fmt = |v: &Vec<u64>| if v.is_empty() { "_".to_string() } else { v.iter().map(|x| x.to_string()).collect::<Vec<_>>().join(",") };
+                            let versions = st3
+                                .versions
+                                .iter()
+                                .zip(st3.version_refcounts.iter())
+                                .enumerate()
+                                .map(|(vi, (lv, rc))| {
+                                    let ts: Vec<u64> = lv.iter().flatten().copied().collect();
+                                    // strong count minus the list's reference and, for the current version, the `current_version` field
+                                    let ext = rc.saturating_sub(if vi + 1 == st3.versions.len() { 2 } else { 1 });
+                                    format!("{}/{}", fmt(&ts), ext)
+                                })
+                                .collect::<Vec<_>>()
+                                .join(";");
+                            let req = format!(
+                                "files.clean {} {} {} {} {} {} {} {} {}",
+                                versions,
+                                fmt(&st3.tables_in_use),
+                                st3.wal_number,
+                                st3.prev_wal_number.map_or("-".to_string(), |x| x.to_string()),
+                                st3.manifest_number,
+                                fmt(&tabs),
+                                fmt(&wals),
+                                fmt(&mans),
+                                fmt(&temps)
+                            );
+                            if let Some(dr) = drv.as_mut() {
+                                let ans = dr.ask(&req);
+                                let have = format!("{} {} {} {}", fmt(&tabs), fmt(&wals), fmt(&mans), fmt(&temps));
+                                stats.retention_checks += 1;
+                                if ans != "no-model" && ans != have {
+                                    obs.push(Obs { sig: "c11:directory-differs-from-retention-model".into(), what: format!("after a deletion pass with no reader alive the directory is [{have}], the retention model's deletion pass would leave [{ans}] (state: versions {versions}, wal {}, manifest {})", st3.wal_number, st3.manifest_number), at: i });
+                                }
                             }
                         }
                     }
